@@ -28,9 +28,11 @@ import (
 	"encoding/hex"
 	"errors"
 	"fmt"
+	"math/big"
 	"os"
 	"path/filepath"
 	"sort"
+	"time"
 
 	"github.com/elastos/Elastos.ELA/account"
 	"github.com/elastos/Elastos.ELA/auxpow"
@@ -379,6 +381,8 @@ type MineOpts struct {
 	ExtraReward common.Fixed64
 	// Miner is the account that receives the miner output (default 0).
 	Miner int
+	// Timestamp overrides the block time (default: genesis time + height).
+	Timestamp uint32
 }
 
 // Mine assembles and solves a block on the explicit parent. It does NOT
@@ -407,11 +411,14 @@ func (n *Node) Mine(parent *types.Block, txs []interfaces.Transaction, o ...Mine
 			Previous:   parent.Hash(),
 			MerkleRoot: common.EmptyHash,
 			Timestamp:  n.Genesis.Timestamp + height,
-			Bits:       n.Params.PowConfiguration.PowLimitBits,
+			Bits:       n.NextBits(parent),
 			Height:     height,
 			Nonce:      0,
 		},
 		Transactions: []interfaces.Transaction{cb},
+	}
+	if opt.Timestamp != 0 {
+		blk.Header.Timestamp = opt.Timestamp
 	}
 	fee := common.Fixed64(0)
 	for _, tx := range txs {
@@ -438,6 +445,41 @@ func (n *Node) Mine(parent *types.Block, txs []interfaces.Transaction, o ...Mine
 	}
 	n.register(blk)
 	return blk, nil
+}
+
+// NextBits is the difficulty a block on top of parent must carry (the rule of
+// BlockChain.CalcNextRequiredDifficulty, computed over the blocks this node has built, so it
+// also works on branches that were never delivered).
+func (n *Node) NextBits(parent *types.Block) uint32 {
+	pc := n.Params.PowConfiguration
+	if parent.Height == 0 || pc.PowLimitBits == 0x207fffff {
+		return pc.PowLimitBits
+	}
+	per := uint32(pc.TargetTimespan / pc.TargetTimePerBlock)
+	if (parent.Height+1)%per != 0 {
+		return parent.Bits
+	}
+	first := parent
+	for first != nil && first.Height != parent.Height-per+1 {
+		first = n.blocks[first.Header.Previous]
+	}
+	if first == nil {
+		return parent.Bits
+	}
+	target := int64(pc.TargetTimespan / time.Second)
+	adj := int64(pc.AdjustmentFactor)
+	span := int64(parent.Timestamp) - int64(first.Timestamp)
+	if span < target/adj {
+		span = target / adj
+	} else if span > target*adj {
+		span = target * adj
+	}
+	t := new(big.Int).Mul(blockchain.CompactToBig(parent.Bits), big.NewInt(span))
+	t.Div(t, big.NewInt(target))
+	if t.Cmp(pc.PowLimit) > 0 {
+		t.Set(pc.PowLimit)
+	}
+	return blockchain.BigToCompact(t)
 }
 
 // feeOf computes inputs−outputs of tx from the blocks this node knows about
